@@ -4,6 +4,7 @@ import (
 	"math/rand"
 
 	"github.com/bluenviron/gomavlib/v3/pkg/frame"
+	"github.com/bluenviron/gomavlib/v3/pkg/streamwriter"
 )
 
 func init() {
@@ -54,6 +55,38 @@ func cmdC06Dialect(o opts) {
 			em.put(g, v.Bytes, -1, "eof", []int{1}, false, cfg, false, "kd_"+v.Kind)
 			if forged && firstCanon != nil {
 				em.put(em.group(), cat(firstCanon, v.Bytes, firstCanon), -1, "eof", []int{5}, false, cfg, false, "kd_"+v.Kind+"_between")
+			}
+		}
+		// no message id is exempt: an unsigned v2 frame and a v1 frame of EVERY message of the dialect (valid checksum, made
+		// by the library's own unkeyed writer) through the keyed reader with and without the dialect: none may be delivered
+		em.incomplete = true
+		for _, m := range all.Messages {
+			for _, ver := range []streamwriter.Version{streamwriter.V2, streamwriter.V1} {
+				if ver == streamwriter.V1 && m.GetID() > 255 {
+					continue
+				}
+				sink := &recWriter{}
+				w := &streamwriter.Writer{FrameWriter: &frame.Writer{ByteWriter: sink, DialectRW: cfg.drw}, Version: ver, SystemID: 9}
+				func() {
+					defer func() { recover() }()
+					if err := w.FrameWriter.Initialize(); err != nil {
+						return
+					}
+					if err := w.Initialize(); err != nil {
+						return
+					}
+					w.Write(newMsg(m, zeroVals(m))) //nolint:errcheck
+				}()
+				if sink.buf.Len() == 0 {
+					continue
+				}
+				data := append([]byte{}, sink.buf.Bytes()...)
+				tag := "kd_unsigned_every_id_v2"
+				if ver == streamwriter.V1 {
+					tag = "kd_v1_every_id"
+				}
+				em.put(em.group(), data, -1, "eof", nil, false, cfg, false, tag)
+				em.put(em.group(), data, -1, "eof", nil, false, streamCfg{key: cfg.key}, false, tag+"_nodialect")
 			}
 		}
 		rec.Close()
